@@ -121,15 +121,24 @@ macro_rules! corpus_dispatch {
             23 => $f::<UnionHolder>("UnionHolder", false, $c, $log),
             24 => $f::<BareUnion>("BareUnion", false, $c, $log),
             25 => $f::<TagContent>("TagContent", false, $c, $log),
-            _ => $f::<InternallyTagged>("InternallyTagged", false, $c, $log),
+            26 => $f::<InternallyTagged>("InternallyTagged", false, $c, $log),
+            27 => $f::<RepeatedComponents>("RepeatedComponents", false, $c, $log),
+            28 => $f::<RenameAllFields>("RenameAllFields", false, $c, $log),
+            29 => $f::<SnakeEnum>("SnakeEnum", true, $c, $log),
+            30 => $f::<Namespaced>("Namespaced", true, $c, $log),
+            31 => $f::<DeepNest>("DeepNest", true, $c, $log),
+            32 => $f::<TagContentRenamed>("TagContentRenamed", false, $c, $log),
+            _ => $f::<TwoInstantiations>("TwoInstantiations", true, $c, $log),
         }
     };
 }
 pub(crate) use corpus_dispatch;
-pub const CORPUS_LEN: usize = 27;
+pub const CORPUS_LEN: usize = 34;
+/// C16 needs a schema that matches the type: the last corpus type is C17's known finding
+pub const C16_CORPUS_LEN: usize = 33;
 
 pub fn case_corpus(c: &mut Choices, log: &mut CaseLog) -> CaseResult {
-    let idx = c.pick(CORPUS_LEN);
+    let idx = c.pick(C16_CORPUS_LEN);
     corpus_dispatch!(idx, c, log, check_type)
 }
 
